@@ -32,7 +32,8 @@ def rand_cfg(rng, profile):
         contracts=CONTRACTS,
         flags=rng.choice([{}, {}, {}, {2: False}, {9: False, 0: False}, {'ts_threshold': 0}, {'ts_threshold': 5},
                           {'eval_return': True}, {'disallow_OP_EVAL': True}, {1: False, 3: False, 4: False},
-                          {10: False}, {'epoch_threshold': 10}]))
+                          {10: False}, {'epoch_threshold': 10}]),
+        vmwide=rng.random() < 0.3)          # the plugins registered VM-wide instead of being passed to the call
 
 
 # ---------------------------------------------------------------- direct oracles on the implementation
